@@ -1466,8 +1466,12 @@ impl<'a> Evaluator<'a> {
             Cond::Ident(n) => self.eval_ident_ctx(self.ident(n), doc, under_or),
             Cond::And(a, b) => {
                 // flatten the and-chain so that "any non-true operand" covers regrouping
+                // with matrix on, an and-chain directly inside an or becomes one matrix row whose
+                // cells - including the entries of the mapping identifiers it names, which
+                // coalesce inlines - are ordered by column: those identifiers are relaxed alike
+                let inner_under_or = under_or && self.opts.relaxed && self.opts.matrix;
                 let mut ops = vec![];
-                self.flatten_and(c, doc, &mut ops);
+                self.flatten_and(c, doc, &mut ops, inner_under_or);
                 let _ = (a, b);
                 set_and(&ops, self.relax_and(self.chain_has_nested(c), under_or))
             }
@@ -1491,12 +1495,13 @@ impl<'a> Evaluator<'a> {
         }
     }
 
-    fn flatten_and(&self, c: &Cond, doc: &DObj, out: &mut Vec<RSet>) {
+    fn flatten_and(&self, c: &Cond, doc: &DObj, out: &mut Vec<RSet>, inner_under_or: bool) {
         match c {
             Cond::And(a, b) => {
-                self.flatten_and(a, doc, out);
-                self.flatten_and(b, doc, out);
+                self.flatten_and(a, doc, out, inner_under_or);
+                self.flatten_and(b, doc, out, inner_under_or);
             }
+            Cond::Ident(_) => out.push(self.eval_cond_ctx(c, doc, inner_under_or)),
             other => out.push(self.eval_cond_ctx(other, doc, false)),
         }
     }
